@@ -404,27 +404,45 @@ class SmallSet {
     return 1U;
   }
 
+  // Note for the erase methods taking iterators: when the last element of the set is erased, the SmallSet comes back
+  // to its small state, and the iterator returned by the set is not a valid 'end()' anymore.
+
   template <class I = const_iterator>
   iterator erase(const_iterator pos, typename std::enable_if<std::is_same<I, const T *>::value>::type * = 0) {
-    return isSmall() ? _vec.erase(pos) : _set.erase(pos);
+    if (isSmall()) {
+      return _vec.erase(pos);
+    }
+    iterator it = _set.erase(pos);
+    return isSmall() ? end() : it;
   }
 
   template <class I = const_iterator>
   iterator erase(const_iterator pos, typename std::enable_if<!std::is_same<I, const T *>::value>::type * = 0) {
-    return isSmall() ? iterator(_vec.erase(pos.toVecIt())) : iterator(_set.erase(pos.toSetIt()));
+    if (isSmall()) {
+      return iterator(_vec.erase(pos.toVecIt()));
+    }
+    iterator it(_set.erase(pos.toSetIt()));
+    return isSmall() ? end() : it;
   }
 
   template <class I = const_iterator>
   iterator erase(const_iterator first, const_iterator last,
                  typename std::enable_if<std::is_same<I, const T *>::value>::type * = 0) {
-    return isSmall() ? _vec.erase(first, last) : _set.erase(first, last);
+    if (isSmall()) {
+      return _vec.erase(first, last);
+    }
+    iterator it = _set.erase(first, last);
+    return isSmall() ? end() : it;
   }
 
   template <class I = const_iterator>
   iterator erase(const_iterator first, const_iterator last,
                  typename std::enable_if<!std::is_same<I, const T *>::value>::type * = 0) {
-    return isSmall() ? iterator(_vec.erase(first.toVecIt(), last.toVecIt()))
-                     : iterator(_set.erase(first.toSetIt(), last.toSetIt()));
+    if (isSmall()) {
+      return iterator(_vec.erase(first.toVecIt(), last.toVecIt()));
+    }
+    iterator it(_set.erase(first.toSetIt(), last.toSetIt()));
+    return isSmall() ? end() : it;
   }
 
   void swap(SmallSet &o) noexcept(noexcept(std::declval<VecType>().swap(std::declval<VecType &>())) &&noexcept(
